@@ -357,6 +357,11 @@ func (cc *certCase) malformed(kind string, r *Rng) *certCase {
 	m := *cc
 	m.Kind, m.Label = kind, kind+" of "+cc.Label
 	switch kind {
+	case "plus-stranger":
+		// the peer appends a certificate that is not part of its chain (e.g. the one the verifier has
+		// pinned): chain building ignores it, every fact about the peer's own certificate is unchanged
+		m.Raw = append(append([][]byte{}, cc.Raw...), strangerDER)
+		return &m
 	case "no-cert":
 		m.Raw, m.Present = nil, false
 	case "garbage-leaf":
@@ -424,6 +429,9 @@ func (cc *certCase) coqFacts() string {
 		hxpStrs(cc.DNS), san)
 }
 
+// strangerDER is set by runC09: a valid certificate of the same PKI issued to somebody else
+var strangerDER []byte
+
 // ---------- pin lists ----------
 
 const (
@@ -439,11 +447,13 @@ const (
 	pinMissThenMatch  // non-matching legal pins, then the matching one last
 	pinEmptyPin       // a single zero-length pin
 	pinMatchThenMiss  // matching first, then non-matching legal pins
+	pinOfOther        // sha256 and sha512 of the LAST presented certificate when it is not the peer's own (else a miss)
+	pinOfOtherAll     // all four digests of every presented certificate but the peer's own (else a miss)
 	nPins
 )
 
 var pinName = []string{"none", "sha256", "sha512", "sha224", "sha384", "miss-legal", "wrong-length", "match-then-wrong-length",
-	"wrong-length-then-match", "miss-then-match", "empty-pin", "match-then-miss"}
+	"wrong-length-then-match", "miss-then-match", "empty-pin", "match-then-miss", "digest-of-another-presented-certificate", "digests-of-all-other-presented-certificates"}
 
 func flip(b []byte, r *Rng) []byte {
 	c := append([]byte{}, b...)
@@ -492,6 +502,26 @@ func (cc *certCase) pins(kind int, r *Rng) [][]byte {
 		return [][]byte{flip(cc.D256, r), flip(cc.D384, r), all[r.Intn(4)]}
 	case pinEmptyPin:
 		return [][]byte{{}}
+	case pinOfOther, pinOfOtherAll:
+		// the pin is about the PEER's certificate (rawCerts[0]); the other elements of the certificate
+		// message are chosen by the peer and prove nothing
+		if len(cc.Raw) < 2 {
+			return [][]byte{flip(cc.D256, r), flip(cc.D512, r)}
+		}
+		var out [][]byte
+		others := cc.Raw[1:]
+		if kind == pinOfOther {
+			others = cc.Raw[len(cc.Raw)-1:]
+		}
+		for _, o := range others {
+			a, b, c, d := sha256.Sum224(o), sha256.Sum256(o), sha512.Sum384(o), sha512.Sum512(o)
+			if kind == pinOfOther {
+				out = append(out, b[:], d[:])
+			} else {
+				out = append(out, a[:], b[:], c[:], d[:])
+			}
+		}
+		return out
 	default:
 		return [][]byte{all[r.Intn(4)], flip(cc.D256, r), r.Bytes(64)}
 	}
